@@ -203,6 +203,7 @@ def run(ctx):
     reals = SC.run_scripts(ctx, "session", scripts)
     for s, r in zip(scripts, reals):
         oracle(ctx, s, r, gen_index)
+        W.refused_leaves_no_trace(ctx, s, r, "c10")
     ctx.sample([SC.describe(o) for o in scripts[0][1][:12]])
     ctx.extra["rule"] = ("BTS+MS sessions: SETTA / SETPOWER / FAKE_TOA / FAKE_RSSI / FAKE_CI (bases, thresholds, relative forms) on either side, both header versions, bursts from the real RandBurstGen "
                          "(every training sequence x NB/SB/AB, FB, dummy), random 148/444-bit bursts and adversarial bursts embedding a second sequence, attenuation octets, legacy-padded input; "
